@@ -24,7 +24,8 @@ pub struct RevealCase {
 fn reveal_case() -> BoxedStrategy<RevealCase> {
     let wallpoly = prop_oneof![4 => rect_polygon(), 1 => star_polygon(3, 8)];
     (
-        prop_oneof![2 => Just(90.0f32), 3 => tilt_any()],
+        // WallGeom documents tilt in [0, 180]
+        prop_oneof![2 => Just(90.0f32), 1 => prop_oneof![Just(0.0f32), Just(180.0f32)], 2 => dec2(0.0, 180.0)],
         azimuth_any(),
         position_box(50.0),
         wallpoly,
@@ -146,8 +147,7 @@ pub fn check_reveal(h: &CaseH, c: &RevealCase) -> Verdict {
         let expect = vec![corner(a.0, a.1, 0.0), corner(b.0, b.1, 0.0), corner(b.0, b.1, -s), corner(a.0, a.1, -s)];
         let found = actual.iter().any(|q| same_points(&expect, q, tol));
         if !found {
-            let t = ((c.wall.tilt % 360.0) + 360.0) % 360.0;
-            let vertical = t == 90.0 || t == 270.0;
+            let vertical = c.wall.tilt == 90.0;
             let sig = format!("C13:reveals:misplaced:{}:{}", name, if vertical { "vertical-wall" } else { "non-vertical-wall" });
             if h.known(&sig) {
                 continue;
